@@ -55,6 +55,9 @@ func genYCfgCase(r *Rng, tier string) Case {
 	}
 	top := g.genKids(0, false)
 	// features: a dependency graph over two modules (b is imported by m), mostly acyclic
+	// cycles and status conflicts among features are confined to one of the two modules per case: with an
+	// error in each, which one is reported depends on Go's map order over the modules (that is C11's subject)
+	faulty := pick(r, []string{"bt", "ft"})
 	mkFeats := func(prefix string, n int, foreign []string) ([]any, []string) {
 		var feats []any
 		var names []string
@@ -65,7 +68,7 @@ func genYCfgCase(r *Rng, tier string) Case {
 			f := map[string]any{"n": names[i]}
 			var deps []any
 			for j := 0; j < n; j++ {
-				if j > i && r.Chance(35) || j < i && r.Chance(1) { // forward edges; rarely a back edge (cycle)
+				if j > i && r.Chance(35) || j < i && prefix == faulty && r.Chance(1) { // forward edges; rarely a back edge (cycle)
 					deps = append(deps, names[j])
 				}
 			}
@@ -77,7 +80,7 @@ func genYCfgCase(r *Rng, tier string) Case {
 			if len(deps) > 0 {
 				f["iff"] = deps
 			}
-			if r.Chance(3) {
+			if prefix == faulty && r.Chance(3) {
 				f["status"] = pick(r, []string{"deprecated", "obsolete"})
 			}
 			feats = append(feats, f)
